@@ -2371,16 +2371,19 @@ class ColFn(ColExpr):
         if filters := self.context_kwargs.get("filter"):
             if len(self.args) == 0:
                 assert self.op == ops.count_star
-            else:
-                self.args[0] = CaseExpr(
-                    [
-                        (
-                            functools.reduce(operator.and_, (cond for cond in filters)),
-                            self.args[0],
-                        )
-                    ]
-                )
-                del self.context_kwargs["filter"]
+                # count the rows that satisfy the filter
+                self.op = ops.count
+                self.args = [LiteralCol(1)]
+
+            self.args[0] = CaseExpr(
+                [
+                    (
+                        functools.reduce(operator.and_, (cond for cond in filters)),
+                        self.args[0],
+                    )
+                ]
+            )
+            del self.context_kwargs["filter"]
 
         super().__init__()
         # try to eagerly resolve the types to get a nicer stack trace on type errors
